@@ -390,7 +390,7 @@ fn run_op(c: &mut Case, t: &[&str]) -> String {
             let pats: Vec<glob::Pattern> =
                 t[1..].iter().filter_map(|s| glob::Pattern::new(&String::from_utf8_lossy(&unhex(s))).ok()).collect();
             c.db.scan_workspace_with_excludes(&c.root.clone(), &pats);
-            "ok".into()
+            format!("ok order={}", observed_order(c))
         }
         "newdb" => {
             c.db = FixtureDatabase::new();
@@ -398,6 +398,56 @@ fn run_op(c: &mut Case, t: &[&str]) -> String {
         }
         other => format!("BADOP {}", other),
     }
+}
+
+/// A linear order of files consistent with the order inside every per-name vector of
+/// `definitions` and `usage_by_fixture` (the only thing the scan's schedule decides).
+fn observed_order(c: &Case) -> String {
+    use std::collections::{BTreeMap, BTreeSet};
+    let mut succ: BTreeMap<String, BTreeSet<String>> = BTreeMap::new();
+    let mut indeg: BTreeMap<String, usize> = BTreeMap::new();
+    let mut add_seq = |seq: Vec<String>| {
+        let mut uniq: Vec<String> = vec![];
+        for f in seq {
+            if !uniq.contains(&f) {
+                uniq.push(f);
+            }
+        }
+        for f in &uniq {
+            indeg.entry(f.clone()).or_insert(0);
+            succ.entry(f.clone()).or_default();
+        }
+        for w in uniq.windows(2) {
+            if succ.get_mut(&w[0]).unwrap().insert(w[1].clone()) {
+                *indeg.get_mut(&w[1]).unwrap() += 1;
+            }
+        }
+    };
+    for e in c.db.definitions.iter() {
+        add_seq(e.value().iter().map(|d| c.rel(&d.file_path)).collect());
+    }
+    for e in c.db.usage_by_fixture.iter() {
+        add_seq(e.value().iter().map(|(p, _)| c.rel(p)).collect());
+    }
+    let mut out = vec![];
+    let mut ready: BTreeSet<String> = indeg.iter().filter(|(_, d)| **d == 0).map(|(k, _)| k.clone()).collect();
+    while let Some(f) = ready.iter().next().cloned() {
+        ready.remove(&f);
+        out.push(f.clone());
+        for s in succ.get(&f).cloned().unwrap_or_default() {
+            let d = indeg.get_mut(&s).unwrap();
+            *d -= 1;
+            if *d == 0 {
+                ready.insert(s);
+            }
+        }
+    }
+    for (f, d) in indeg.iter() {
+        if *d > 0 && !out.contains(f) {
+            out.push(f.clone()); // cyclic constraints cannot come from one schedule; keep going
+        }
+    }
+    if out.is_empty() { "-".into() } else { out.join(",") }
 }
 
 fn write_file(p: &Path, content: &[u8]) {
